@@ -97,3 +97,39 @@ Theorem C12_multipart_unlock_before_flush_refuted :
             both_using s = true.
 Proof. exact mp_unlock_before_flush_witness. Qed.
 Print Assumptions C12_multipart_unlock_before_flush_refuted.
+
+(** ** [Done] as it is since gqlgen's repair: after the last flush, a stream whose last delimiter was not the closing
+    boundary gets one more part saying that nothing follows, and the closing boundary ([mrun_done]).  For an
+    operation that runs to its end this adds nothing - the stream is the one the framing theorem is about. *)
+Theorem C12_multipart_done_adds_nothing_when_complete : forall acts p0 ps,
+  adds acts = p0 :: ps -> hn_pattern (p0 :: ps) = true -> mrun_done acts = mrun m0 (acts ++ [MDone]).
+Proof. exact multipart_done_complete_lemma. Qed.
+Print Assumptions C12_multipart_done_adds_nothing_when_complete.
+
+(** An operation that ends after payloads that all announced more (its context ended while the client was still
+    reading): wherever the flush ticks fall, the stream parses; the initial payload once and first, every incremental
+    payload once and in order, then one part that says nothing follows, then the closing boundary - the last token,
+    occurring only there.  Together with the framing theorem: every payload sequence in which nothing follows a
+    payload that says hasNext false. *)
+Theorem C12_multipart_left_open_stream_is_closed : forall acts p0 ps,
+  adds acts = p0 :: ps -> forallb p_hasnext (p0 :: ps) = true ->
+  exists bs, parse_toks ExpBoundary (mrun_done acts) = Some (BInitial p0 :: bs ++ [BFinal], PClosed)
+             /\ initial_of bs = [] /\ incrementals_of bs = ps.
+Proof. exact multipart_left_open_lemma. Qed.
+Print Assumptions C12_multipart_left_open_stream_is_closed.
+
+(** Refuted for [Done] as the pinned commit had it (the last flush and nothing else): the stream of an operation cut
+    short ends with a plain boundary and never reaches the closing one. *)
+Theorem C12_multipart_left_open_legacy_refuted :
+  let p := fun n b => {| p_id := n; p_hasnext := b |} in
+  parse_toks ExpBoundary (mrun m0 ([MAdd (p 0%nat true); MTick; MAdd (p 1%nat true)] ++ [MDone]))
+  = Some ([BInitial (p 0%nat true); BIncr [p 1%nat true] true], ExpHeader).
+Proof. reflexivity. Qed.
+Print Assumptions C12_multipart_left_open_legacy_refuted.
+
+Example C12_multipart_left_open_nonvacuous :
+  let p := fun n b => {| p_id := n; p_hasnext := b |} in
+  mrun_done [MAdd (p 0%nat true); MTick; MAdd (p 1%nat true)] =
+  [TBoundary; THeader; TInitial (p 0%nat true); TCRLF; TBoundary; THeader; TIncremental [p 1%nat true] true; TCRLF; TBoundary;
+   THeader; TFinal; TCRLF; TClosing].
+Proof. reflexivity. Qed.
